@@ -444,16 +444,9 @@ class Hist:
             except Exception as ex:  # noqa
                 x = None
                 self.events.append(("raise", E.exn_name(ex)))
-                # the property speaks about classes for which create_serializer succeeds: an instantiation that
-                # raises because the implicit create_serializer of a class without a serializer raises is outside
-                for n in structs_postorder(desc, []):
-                    cls = self.nsf[n + "_F"]
-                    if "serialize" not in cls.__dict__:
-                        try:
-                            create_serializer(cls)
-                        except Exception:  # noqa
-                            self.events[-1] = ("raise", E.exn_name(ex), "create-fails")
-                            break
+                # (the property speaks about classes for which create_serializer succeeds: an instantiation that
+                # raises because the implicit create_serializer raises is outside it; whether it raises exactly
+                # when the model's create fails is part of the correspondence)
             self.inst_event[len(self.instances)] = self.events[-1]
             self.instances.append((desc, x, twin))
             self.trace.append(("inst", trusted, desc, self.events[-1][:2]))
@@ -474,12 +467,6 @@ class Hist:
         sn, compact = self.conf.get(cname, (False, False))
         reg_o, reg_v = outcome_of(lambda: Serializer(twin).serialize(compact=compact), strip="_R")
         if x is None:
-            o = {"idx": idx, "cls": cname, "at": self.n_ops, "compact": compact, "sn": sn, "reg": reg_o,
-                 "fast": ("raise", "NotCreated"), "via": ("raise", "NotCreated"), "clause": None}
-            ev = self.inst_event.get(idx, ("raise", "?"))
-            if reg_o[0] == "ok" and len(ev) < 3 and not any(ob["idx"] == idx for ob in self.obs):
-                o["clause"] = "instantiation-raises:" + ev[1]
-            self.obs.append(o)
             return
         inst_f = rename(E.reify(x, S.struct_attrs), "_F")
         fast_o, fast_v = outcome_of(lambda: x.serialize(), strip="_F")
@@ -895,7 +882,7 @@ def stream_fast_hist(rep, rnd, n, lattice_spec, model_ok, fresh, eval_bodies):
         rep.stat("fast_hist", "family:" + ("inheritance" if any(c.get("base") for c in fam) else "flat"))
         for ev in h.events:
             if ev[0] == "raise":
-                rep.stat("fast_hist", "op-raises:" + ev[1] + (" (create_serializer fails: outside the property)" if len(ev) > 2 else ""))
+                rep.stat("fast_hist", "op-raises:" + ev[1] + " (create_serializer / the implicit one of an instantiation)")
         n_ser += len(h.obs)
         n_bad += report_obs(rep, h, ops, origin)
         if model_ok:
